@@ -71,3 +71,5 @@ Definition batches_case (n nb pre : nat) (obs : list nat) : bool := nat_list_eqb
    resume carries the same shift that is subtracted afterwards *)
 Definition shift_case (sigma tol : Q) (ref obs : list Q) : bool :=
   vclose tol (map (reported_eigenvalue sigma sigma) ref) obs.
+
+Definition slq_order_case (requested op_size observed : nat) : bool := Nat.eqb (clamp_order requested op_size) observed.
